@@ -61,21 +61,24 @@ def verify(obj, dotted, stage):
         raise Violation(stage + ':len', 'len(%s) == %r, %d arguments' %
                         (dotted, length, len(order)))
     for n in order:
-        if n not in obj:
+        # none of the mapping operations may raise for a name of the list, whatever the
+        # attributes hold
+        if not call(stage + ':contains', lambda: n in obj):
             raise Violation(stage + ':contains', '%r not in %s' % (n, dotted))
-        if obj[n] is not getattr(obj, n):
-            raise Violation(stage + ':getitem', '%s[%r] is not the attribute' %
-                            (dotted, n))
-        if cls.amqp_type(n) != types[n]:
+        if call(stage + ':getitem', lambda: obj[n]) is not getattr(obj, n):
+            raise Violation(stage + ':getitem', '%s[%r] is %s, the attribute is %s' %
+                            (dotted, n, canon.short(obj[n], 60),
+                             canon.short(getattr(obj, n), 60)))
+        if call(stage + ':amqp_type', cls.amqp_type, n) != types[n]:
             raise Violation(stage + ':amqp_type', '%s.amqp_type(%r) == %r' %
                             (dotted, n, cls.amqp_type(n)))
     probes = ['name', 'index', 'validate', '', 'frame_id', 'marshal', 'flags',
               '__slots__'] + ['_' + n for n in order] + \
              [n for n in ALL_NAMES if n not in order]
     for n in probes:
-        if n in obj:
+        if call(stage + ':contains-extra', lambda: n in obj):
             raise Violation(stage + ':contains-extra', '%r in %s' % (n, dotted))
-    if list(cls.attributes()) != order:
+    if list(call(stage + ':attributes', cls.attributes)) != order:
         raise Violation(stage + ':attributes', '%s.attributes() == %r' %
                         (dotted, cls.attributes()))
 
@@ -135,7 +138,12 @@ ARBITRARY = st.one_of(st.none(), st.integers(-5, 2**70), st.text(max_size=5),
                       S.struct_times(), S.datetimes(), S.table_decimals(),
                       st.binary(max_size=4).map(bytearray),
                       st.frozensets(st.integers(0, 3), max_size=2).map(set),
-                      st.just(canon.Opaque()), st.just('$self'))
+                      st.just(canon.Opaque()), st.just('$self'),
+                      # names as data: a table whose keys are spelled like arguments /
+                      # properties (of this or another class) must not be mistaken for them
+                      st.dictionaries(st.sampled_from(ALL_NAMES),
+                                      st.one_of(st.integers(0, 9), st.text(max_size=3)),
+                                      min_size=1, max_size=4))
 
 
 def cases_strategy(tier):
@@ -197,6 +205,20 @@ def sweep(tier, shard, nshards):
           for i, (n, w) in enumerate(S.SETTABLE)}
     for rt in (False, True):
         out.append({'cls': PROPS, 'args': pv, 'set': {}, 'roundtrip': rt})
+    # names as data: every table-valued argument holds keys spelled like the arguments and
+    # properties of all classes, while the attributes of those names are unset / default
+    names_table = {n: i for i, n in enumerate(ALL_NAMES)}
+    for rt in (False, True):
+        out.append({'cls': PROPS, 'args': {'headers': dict(names_table)}, 'set': {},
+                    'roundtrip': rt})
+        out.append({'cls': PROPS, 'args': {'headers': dict(names_table),
+                                           'priority': 0, 'content_type': ''},
+                    'set': {}, 'roundtrip': rt})
+        for m in spec_table.METHODS:
+            tabs = [f.name for f in m.fields if f.type == 'table']
+            if tabs:
+                out.append({'cls': m.dotted, 'set': {}, 'roundtrip': rt,
+                            'args': {t: dict(names_table) for t in tabs}})
     return out[shard::nshards]
 
 
